@@ -45,4 +45,28 @@ theorem custom_set_src : custom_set_args = "c.ID, &cacheItem{ updTime: c.UpdateT
 /-- `CloneForReq` (model `Old.cloneForReq`) resets the reply header with `SetReply`. -/
 theorem clone_for_req_src : clone_for_req_calls = "msg.SetReply" := by decide
 
+/-- `NewCacheKey` (model `keyBytes`): the whole host, then the 16-bit type at bytes 0–1, the 16-bit
+class at bytes 2–3, the answer flag at byte 4, and all five bytes are hashed. -/
+theorem key_host_src : key_host_args = "host" := by decide
+theorem key_qt_src : key_qt_args = "buf[:2], qt" := by decide
+theorem key_cl_src : key_cl_args = "buf[2:4], cl" := by decide
+theorem key_ans_src : key_ans_rhs = "mathutil.BoolToNumber[byte](isAns)" := by decide
+theorem key_write_src : key_write_args = "buf[:]" := by decide
+theorem key_calls_src :
+    key_calls = "h.SetSeed,h.WriteString,binary.LittleEndian.PutUint16,binary.LittleEndian.PutUint16,h.Write,h.Sum64" := by
+  decide
+/-- Safe search (model `RL.ssStep`): gate on A/AAAA/HTTPS, the rule-list lookup gets nothing of the
+requester but the address, and the result is built from the request afterwards. -/
+theorem ss_gate_src : ss_gate_cases = "dns.TypeA,dns.TypeAAAA,dns.TypeHTTPS | default" := by decide
+theorem ss_result_src : ss_result_args = "req.RemoteIP, \"\", host, qt, false" := by decide
+theorem ss_rewrite_src : ss_rewrite_args = "req, dr.DNSRewrites(), id" := by decide
+/-- `LRU.Clear` purges the whole cache. -/
+theorem lru_clear_src : lru_clear_calls = "c.cache.Purge" := by decide
+/-- The hash-prefix key is built from the request's host, type and class. -/
+theorem hp_key_src : hp_key_args = "host, qt, cl, false" := by decide
+/-- `filter.DNSResult`: cache lookup, engine, insertion (model `RLS.step` get · mtch · set). -/
+theorem rl_filter_calls_src : rl_filter_calls = "itemFromCache,f.engine.MatchRequest,f.cache.Set" := by decide
+/-- `FilterRequest` never writes the result cache except through the guarded `setInCache`. -/
+theorem hp_request_sets_src : hp_request_sets = "0" := by decide
+
 end Agd.Tie.C12
